@@ -54,6 +54,14 @@ def main():
             meta["ran"].append("full suite with change: %s" % outs.strip().splitlines()[-1])
         else:
             suite_ok = True
+            # a re-run after strengthening a check: keep the suite result of the confirming run
+            try:
+                old = json.load(open(os.path.join(VERIF, "seeded", "%s-%s" % (pid, k), "meta.json")))
+                meta["ran"] += [l for l in old.get("ran", []) if l.startswith("full suite")]
+                if "first_run_checks" in old or "checks" in old:
+                    meta["first_run_checks"] = old.get("first_run_checks") or old.get("checks")
+            except Exception:
+                pass
     finally:
         sh("git checkout -- .", cwd=wt)
         if "ctraits.c" in open(patch).read():
